@@ -19,7 +19,7 @@ func init() {
 		Assume: []string{"a row written during the scan may show any state it had inside the scan window; a row that is non-empty in all of those states must be present", "btree engine excluded (it documents that it does not offer this)"},
 		Run:    runC18,
 	})
-	expectedProbes["C18"] = []string{"c18.multi_message", "c18.write_between_messages", "c18.row_deleted_during_scan", "c18.row_inserted_during_scan", "c18.returned_old_state", "c18.returned_new_state", "c18.keys_only_rowset", "c18.client_gone_mid_scan"}
+	expectedProbes["C18"] = []string{"c18.multi_message", "c18.write_between_messages", "c18.row_deleted_during_scan", "c18.row_inserted_during_scan", "c18.returned_old_state", "c18.returned_new_state", "c18.keys_only_rowset", "c18.client_gone_mid_scan", "c18.lazy_transport", "c18.consumer_writes_before_reading_on"}
 }
 
 type rowVersion struct {
@@ -91,6 +91,8 @@ func runC18(r *Run) {
 	written := map[string]bool{}
 
 	var evt int64
+	writerDone := make([]int, 4)
+	writerLeft := make([]int, 4)
 	s := r.NewSched()
 	s.Budget = 400000
 	// writers: writer j owns rows with index % nWriters == j among a drawn subset
@@ -118,6 +120,7 @@ func runC18(r *Run) {
 		for _, p := range plan {
 			written[p.key] = true
 		}
+		writerLeft[j] = len(plan)
 		s.Go(fmt.Sprintf("w%d", j), func() {
 			seq := 0
 			for _, p := range plan {
@@ -157,6 +160,8 @@ func runC18(r *Run) {
 				}
 				next.prune()
 				versions[p.key] = append(versions[p.key], rowVersion{state: next, call: call, ret: evt})
+				writerDone[j]++
+				writerLeft[j]--
 			}
 		})
 	}
@@ -194,6 +199,28 @@ func runC18(r *Run) {
 		w.SendFail = func(kind string, nth int) bool { return kind == "ReadRows" && nth == sendFailAt }
 		defer func() { w.SendFail = nil }()
 	}
+	// in some runs the transport serialises the messages only when the scan is over
+	if cfg.Intn(4) == 3 && sendFailAt < 0 {
+		w.LazySend = true
+		r.Probe("c18.lazy_transport")
+		defer func() { w.LazySend = false }()
+	}
+	// in some runs the consumer of the stream does a write of its own before it reads on: the
+	// n-th Send returns only after writer 0 has completed one more request (a single-threaded
+	// client under flow control). A scan that keeps the table locked while it sends never ends.
+	if cfg.Intn(4) == 2 && sendFailAt < 0 {
+		w.SendGate = func(n int) {
+			if writerLeft[0] == 0 {
+				return
+			}
+			target := writerDone[0] + 1
+			r.Probe("c18.consumer_writes_before_reading_on")
+			for writerDone[0] < target && writerLeft[0] > 0 && !r.Failed() {
+				hookBlock("stream.Send.consumer")
+			}
+		}
+		defer func() { w.SendGate = nil }()
+	}
 	var msgEvt []int64
 	s.Go("scan", func() {
 		evt++
@@ -205,7 +232,7 @@ func runC18(r *Run) {
 	})
 	// stamp each message with the event counter: done through the stream's step stamps
 	v := s.Run()
-	w.SendFail = nil
+	w.SendFail, w.SendGate, w.LazySend = nil, nil, false
 	r.FinishSched(s, v)
 	_ = msgEvt
 	r.Sample = map[string]interface{}{"engine": engine, "rows": nRows, "cells_per_row": cellsPerRow, "writers": nWriters, "ops_per_writer": opsPerWriter, "rowset": rowSetString(rowset), "messages": res.Msgs, "steps": s.Steps, "preemptions": s.Pre}
